@@ -31,6 +31,8 @@ TCOMMENT == 22
 TDOCTYPE == 23
 TATTR == 24
 TSELF == 25     \* self-closing flag
+TAVB == 26      \* the (character-reference-decoded) value of an event-handler / style attribute, lexed as JS / CSS, begins
+TAVE == 27      \* ... ends
 
 NScript == <<115,99,114,105,112,116>>
 NStyle == <<115,116,121,108,101>>
@@ -48,6 +50,26 @@ ASrcset == <<115,114,99,115,101,116>>
 URLAttrs == { <<104,114,101,102>>, <<115,114,99>>, <<97,99,116,105,111,110>>, <<99,105,116,101>>, <<100,97,116,97>>,
               <<102,111,114,109,97,99,116,105,111,110>>, <<108,111,110,103,100,101,115,99>>, <<109,97,110,105,102,101,115,116>>,
               <<112,111,115,116,101,114>>, <<120,109,108,110,115>> }   \* href src action cite data formaction longdesc manifest poster xmlns
+\* elements that have URL-valued attributes (HTML attributes table); their names are kept for IsURLAttr
+URLTags == { <<102,111,114,109>>, <<98,108,111,99,107,113,117,111,116,101>>, <<100,101,108>>, <<105,110,115>>, <<113>>,
+             <<111,98,106,101,99,116>>, <<98,117,116,116,111,110>>, <<105,110,112,117,116>>, <<97>>, <<97,114,101,97>>, <<108,105,110,107>>,
+             <<98,97,115,101>>, <<105,109,103>>, <<104,116,109,108>>, <<118,105,100,101,111>>, <<97,117,100,105,111>>, <<101,109,98,101,100>>,
+             <<105,102,114,97,109,101>>, <<115,111,117,114,99,101>>, <<116,114,97,99,107>>, <<115,99,114,105,112,116>> }
+\* the HTML attributes table: which (element, attribute) pairs hold a URL (1) or a list of URLs (2)
+IsURLAttr(t, a) ==
+  CASE a = <<97,99,116,105,111,110>> -> IF t = <<102,111,114,109>> THEN 1 ELSE 0                                         \* action: form
+    [] a = <<99,105,116,101>> -> IF t \in {<<98,108,111,99,107,113,117,111,116,101>>, <<100,101,108>>, <<105,110,115>>, <<113>>} THEN 1 ELSE 0   \* cite: blockquote del ins q
+    [] a = <<100,97,116,97>> -> IF t = <<111,98,106,101,99,116>> THEN 1 ELSE 0                                            \* data: object
+    [] a = <<102,111,114,109,97,99,116,105,111,110>> -> IF t \in {<<98,117,116,116,111,110>>, <<105,110,112,117,116>>} THEN 1 ELSE 0   \* formaction: button input
+    [] a = <<104,114,101,102>> -> IF t \in {<<97>>, <<97,114,101,97>>, <<108,105,110,107>>, <<98,97,115,101>>} THEN 1 ELSE 0      \* href: a area link base
+    [] a = <<108,111,110,103,100,101,115,99>> -> IF t = <<105,109,103>> THEN 1 ELSE 0                                     \* longdesc: img
+    [] a = <<109,97,110,105,102,101,115,116>> -> IF t = <<104,116,109,108>> THEN 1 ELSE 0                                 \* manifest: html
+    [] a = <<112,111,115,116,101,114>> -> IF t = <<118,105,100,101,111>> THEN 1 ELSE 0                                    \* poster: video
+    [] a = <<115,114,99>> -> IF t \in {<<97,117,100,105,111>>, <<101,109,98,101,100>>, <<105,102,114,97,109,101>>, <<105,109,103>>, <<105,110,112,117,116>>,
+                                       <<115,99,114,105,112,116>>, <<115,111,117,114,99,101>>, <<116,114,97,99,107>>, <<118,105,100,101,111>>} THEN 1 ELSE 0
+    [] a = <<115,114,99,115,101,116>> -> IF t \in {<<105,109,103>>, <<115,111,117,114,99,101>>} THEN 2 ELSE 0           \* srcset: img source
+    [] a = <<120,109,108,110,115>> -> 1                                                                                  \* xmlns (XML namespace name)
+    [] OTHER -> 0
 AOnStar == <<111,110,42>>       \* "on*": any event handler content attribute
 SpecialAttrs == URLAttrs \cup {AType, AStyle, ASrcset}
 JSTypes == { <<116,101,120,116,47,106,97,118,97,115,99,114,105,112,116>>, <<97,112,112,108,105,99,97,116,105,111,110,47,106,97,118,97,115,99,114,105,112,116>>,
@@ -62,7 +84,7 @@ HSpace(c) == c \in {9, 10, 12, 13, 32}    \* CR is normalised to LF by the input
 
 \* keep a name only while it is a prefix of a name in S; <<0>> = "some other name"
 NormName(b, S) == IF b = <<0>> THEN b ELSE IF \E n \in S : AEIsPrefix(b, n) THEN b ELSE <<0>>
-TagNames == {SpecialTags[k] : k \in 1..Len(SpecialTags)}
+TagNames == {SpecialTags[k] : k \in 1..Len(SpecialTags)} \cup URLTags
 TagAdd(b, c) == NormName(IF b = <<0>> THEN b ELSE Append(b, AELower(c)), TagNames)
 \* attribute names: on + anything -> "on*"
 AttrAdd(b, c) == IF b = <<0>> \/ b = AOnStar THEN b
@@ -73,8 +95,8 @@ AttrAdd(b, c) == IF b = <<0>> \/ b = AOnStar THEN b
 TypeAdd(b, c) == IF HSpace(c) THEN b ELSE NormName(IF b = <<0>> THEN b ELSE Append(b, AELower(c)), JSTypes \cup JSONTypes \cup CSSTypes)
 TagClass(t) == IF \E k \in 1..Len(SpecialTags) : SpecialTags[k] = t THEN CHOOSE k \in 1..Len(SpecialTags) : SpecialTags[k] = t ELSE 0
 AttrClass(a) == CASE a = AOnStar -> 99 [] a = AType -> 1 [] a = AStyle -> 2 [] a = ASrcset -> 3 [] a \in URLAttrs -> 4 [] OTHER -> 0
-AttrKind(a) == CASE a = AOnStar -> "event" [] a = AType -> "type" [] a = AStyle -> "style" [] a = ASrcset -> "srcset"
-                 [] a \in URLAttrs -> "url" [] OTHER -> "plain"
+AttrKind(t, a) == CASE a = AOnStar -> "event" [] a = AType -> "type" [] a = AStyle -> "style"
+                    [] IsURLAttr(t, a) = 2 -> "srcset" [] IsURLAttr(t, a) = 1 -> "url" [] OTHER -> "plain"
 \* language of a script / style element from its (first) type attribute; "" = no type attribute
 ScriptLang(ty) == CASE ty = "" \/ ty = "js" -> "js" [] ty = "json" -> "json" [] OTHER -> "data"
 StyleLang(ty) == IF ty = "" \/ ty = "css" THEN "css" ELSE "data"
@@ -91,9 +113,12 @@ SubNorm(lang, s) == CASE lang = "js" -> JSNorm(s) [] lang = "css" -> CSSNorm(s) 
 (* state: st; tag / end / attrs / an / kind / tv / ty describe the tag token being built (ty = class
    of its first type attribute, tv the type value being read); elem = element whose content model
    is active ("" = none), lang / sub = its sub-language and sub-lexer; tmp = small match buffer;
-   ret = state to fall back to from an end-tag-name match; sig = tokens emitted so far *)
+   ret = state to fall back to from an end-tag-name match; sig = tokens emitted so far;
+   alang / asub = language and sub-lexer of the event-handler ("js") or style ("css") attribute value
+   being read, ent = the character reference being read in it, avs = tokens of such values of this tag *)
 H0 == [st |-> "data", tag |-> <<>>, end |-> FALSE, attrs |-> <<>>, an |-> <<>>, kind |-> "", tv |-> <<>>, ty |-> "",
-       self |-> FALSE, elem |-> <<>>, lang |-> "", sub |-> NoSub, tmp |-> <<>>, ret |-> "", sig |-> <<>>]
+       self |-> FALSE, elem |-> <<>>, lang |-> "", sub |-> NoSub, tmp |-> <<>>, ret |-> "", sig |-> <<>>,
+       alang |-> "", asub |-> NoSub, ent |-> <<>>, avs |-> <<>>]
 
 Feed1(h, c) == IF h.lang \in {"", "data"} THEN h
                ELSE LET s2 == SubStep(h.lang, h.sub, c) IN
@@ -105,22 +130,58 @@ FeedSeq(h, cs) == IF h.lang \in {"", "data"} THEN h ELSE FeedFrom(h, cs, 1)
 Held(b) == IF b = <<0>> THEN <<120>> ELSE b
 
 NewTag(h, isEnd) == [h EXCEPT !.st = "tagname", !.tag = <<>>, !.end = isEnd, !.attrs = <<>>, !.an = <<>>, !.kind = "",
-                              !.tv = <<>>, !.ty = "", !.self = FALSE]
-FinishName(h) == [h EXCEPT !.attrs = IF Len(@) < 24 THEN Append(@, AttrClass(h.an)) ELSE @, !.kind = AttrKind(h.an)]
-StartValue(h, st) == [h EXCEPT !.st = st, !.tv = <<>>]
-AccValue(h, c) == IF h.kind = "type" /\ h.ty = "" /\ ~h.end /\ h.tag \in {NScript, NStyle}
-                  THEN [h EXCEPT !.tv = TypeAdd(@, c)] ELSE h
-FinishValue(h) == IF h.kind = "type" /\ h.ty = "" /\ ~h.end /\ h.tag \in {NScript, NStyle}
-                  THEN [h EXCEPT !.ty = IF TypeClass(h.tv) = "" THEN "dflt" ELSE TypeClass(h.tv), !.tv = <<>>] ELSE h
+                              !.tv = <<>>, !.ty = "", !.self = FALSE, !.alang = "", !.asub = NoSub, !.ent = <<>>, !.avs = <<>>]
+FinishName(h) == [h EXCEPT !.attrs = IF Len(@) < 24 THEN Append(@, AttrClass(h.an)) ELSE @, !.kind = AttrKind(h.tag, h.an)]
+(* Event-handler ("on..." names) and style attribute values are, after character-reference decoding, JavaScript
+   and CSS: they are lexed by the sub-lexers and their tokens are part of the tag's signature.
+   Decoded here: &#DDD; &#xHH; &amp; &lt; &gt; &quot; &apos; (terminated by `;`); anything else is literal. *)
+AttrLang(h) == IF h.end THEN "" ELSE IF h.kind = "event" THEN "js" ELSE IF h.kind = "style" THEN "css" ELSE ""
+StartValue(h, st) == LET al == AttrLang(h) IN
+                     [h EXCEPT !.st = st, !.tv = <<>>, !.alang = al, !.asub = Sub0(al), !.ent = <<>>,
+                               !.avs = IF al = "" THEN @ ELSE Append(@, TAVB)]
+AF1(h, c) == LET s2 == SubStep(h.alang, h.asub, c) IN [h EXCEPT !.asub = s2, !.avs = @ \o s2.o]
+RECURSIVE AFSeq(_, _, _)
+AFSeq(h, cs, i) == IF i > Len(cs) THEN h ELSE AFSeq(AF1(h, cs[i]), cs, i + 1)
+RECURSIVE EntNum(_, _, _, _)
+EntNum(e, i, base, acc) ==
+  IF i > Len(e) THEN acc
+  ELSE LET c == AELower(e[i])
+           d == IF AEIsDigit(c) THEN c - 48 ELSE IF base = 16 /\ c >= 97 /\ c <= 102 THEN c - 87 ELSE -1
+       IN IF d < 0 \/ acc < 0 \/ acc > 100000 THEN -1 ELSE EntNum(e, i + 1, base, acc * base + d)
+\* the character a complete reference e (`&...`, without the `;`) stands for; -1 = not a reference known here
+EntChar(e) ==
+  CASE Len(e) >= 4 /\ e[2] = 35 /\ AELower(e[3]) = 120 -> EntNum(e, 4, 16, 0)
+    [] Len(e) >= 3 /\ e[2] = 35 /\ AELower(e[3]) # 120 -> EntNum(e, 3, 10, 0)
+    [] e = <<38,97,109,112>> -> 38 [] e = <<38,108,116>> -> 60 [] e = <<38,103,116>> -> 62
+    [] e = <<38,113,117,111,116>> -> 34 [] e = <<38,97,112,111,115>> -> 39
+    [] OTHER -> -1
+RECURSIVE AFeed(_, _)
+AFeed(h, c) ==
+  IF h.ent = <<>> THEN (IF c = 38 THEN [h EXCEPT !.ent = <<38>>] ELSE AF1(h, c))
+  ELSE IF c = 59 THEN LET d == EntChar(h.ent) IN
+                      IF d >= 0 /\ d < 128 THEN AF1([h EXCEPT !.ent = <<>>], d)
+                      ELSE IF d >= 128 THEN AF1([h EXCEPT !.ent = <<>>], 128)      \* some non-ASCII character
+                      ELSE AFSeq([h EXCEPT !.ent = <<>>], Append(h.ent, c), 1)
+  ELSE IF Len(h.ent) < 9 /\ (AEIsAlpha(c) \/ AEIsDigit(c) \/ (c = 35 /\ Len(h.ent) = 1)) THEN [h EXCEPT !.ent = Append(@, c)]
+  ELSE AFeed(AFSeq([h EXCEPT !.ent = <<>>], h.ent, 1), c)
+AccValue(h, c) == LET g == IF h.kind = "type" /\ h.ty = "" /\ ~h.end /\ h.tag \in {NScript, NStyle}
+                           THEN [h EXCEPT !.tv = TypeAdd(@, c)] ELSE h
+                  IN IF g.alang = "" THEN g ELSE AFeed(g, c)
+FinishValue(h) == LET g == IF h.kind = "type" /\ h.ty = "" /\ ~h.end /\ h.tag \in {NScript, NStyle}
+                           THEN [h EXCEPT !.ty = IF TypeClass(h.tv) = "" THEN "dflt" ELSE TypeClass(h.tv), !.tv = <<>>] ELSE h
+                  IN IF g.alang = "" THEN g
+                     ELSE LET f == AFSeq([g EXCEPT !.ent = <<>>], g.ent, 1) IN
+                          [f EXCEPT !.avs = (@ \o SubFlush(f.alang, f.asub)) \o <<TAVE>>, !.alang = "", !.asub = NoSub]
 TyOf(h) == IF h.ty = "dflt" THEN "" ELSE h.ty
 
 RECURSIVE AttrToks(_, _)
 AttrToks(as, i) == IF i > Len(as) THEN <<>> ELSE <<TATTR, as[i]>> \o AttrToks(as, i + 1)
-Cleared(h) == [h EXCEPT !.tag = <<>>, !.end = FALSE, !.attrs = <<>>, !.an = <<>>, !.kind = "", !.tv = <<>>, !.ty = "", !.self = FALSE]
+Cleared(h) == [h EXCEPT !.tag = <<>>, !.end = FALSE, !.attrs = <<>>, !.an = <<>>, !.kind = "", !.tv = <<>>, !.ty = "", !.self = FALSE,
+                         !.alang = "", !.asub = NoSub, !.ent = <<>>, !.avs = <<>>]
 \* `>` of a tag: emit the token and let the tree builder switch the tokenizer
 EmitTag(h) ==
   IF h.end THEN [Cleared(h) EXCEPT !.st = "data", !.sig = h.sig \o <<TEND, TagClass(h.tag)>>]
-  ELSE LET tok == <<TSTART, TagClass(h.tag)>> \o AttrToks(h.attrs, 1) \o (IF h.self THEN <<TSELF>> ELSE <<>>)
+  ELSE LET tok == <<TSTART, TagClass(h.tag)>> \o AttrToks(h.attrs, 1) \o h.avs \o (IF h.self THEN <<TSELF>> ELSE <<>>)
            g == [Cleared(h) EXCEPT !.sig = h.sig \o tok]
        IN CASE h.tag = NScript -> LET l == ScriptLang(TyOf(h)) IN [g EXCEPT !.st = "raw", !.elem = h.tag, !.lang = l, !.sub = Sub0(l)]
             [] h.tag = NStyle -> LET l == StyleLang(TyOf(h)) IN [g EXCEPT !.st = "raw", !.elem = h.tag, !.lang = l, !.sub = Sub0(l)]
@@ -320,12 +381,13 @@ SlotKind(h) == IF h.st \in {"bval", "vdq", "vsq", "vunq"} /\ ~h.end THEN h.kind 
 \* class of the final state, part of a structure signature (what is still open at the end)
 HClass(h) == <<Slot(h), SlotKind(h), IF h.lang = "js" THEN Len(h.sub.ts) ELSE 0,
                IF h.st \in {"tagname", "battr", "attrname", "aattr", "bval", "vdq", "vsq", "vunq", "avalq", "selfclose"} /\ ~h.end
-               THEN <<TagClass(h.tag)>> \o h.attrs ELSE <<>> >>
+               THEN <<TagClass(h.tag)>> \o h.attrs \o h.avs ELSE <<>>,
+               IF h.alang = "js" THEN <<JSSlot(h.asub), Len(h.asub.ts)>> ELSE IF h.alang = "css" THEN <<CSSSlot(h.asub)>> ELSE <<>> >>
 \* tokens still pending at the end of input (a word being read in a script, ...)
 HPending(h) == IF h.st \in RawStates THEN SubFlush(h.lang, h.sub) ELSE <<>>
 
 \* finite-state normal form for the product exploration: no signature, no attribute list
-HNorm(h) == [h EXCEPT !.sig = <<>>, !.attrs = <<>>, !.sub = SubNorm(h.lang, h.sub)]
+HNorm(h) == [h EXCEPT !.sig = <<>>, !.attrs = <<>>, !.avs = <<>>, !.sub = SubNorm(h.lang, h.sub), !.asub = SubNorm(h.alang, h.asub)]
 
 \* structure signature of a whole document
 SigOfState(h) == [toks |-> h.sig \o HPending(h), fin |-> HClass(h)]
